@@ -342,7 +342,7 @@ package shimagent
 //@     invariant calls(Agent.Signers) == g0 + 1 && arg(Agent.Signers, g0, 0) == s.agent && ret(Agent.Signers, g0, 1) == nil && uss == ret(Agent.Signers, g0, 0) && err == nil
 //@     invariant mapdom(s.certs) == entry(mapdom(s.certs)) && mapval(s.certs) == entry(mapval(s.certs))
 //@     invariant certsNonNil(s)
-//@     invariant signers != nil && fresh(arr(signers)) && allocated(arr(uss))
+//@     invariant signers != nil && fresh(arr(signers)) && allocated(arr(uss)) && arr(signers) != arr(uss)
 //@     invariant forall(j, 0 <= j && j < len(uss), uss[j] != nil)
 //@     invariant [no-hidden-upstream-signer] forall(i, 0 <= i && i < len(signers), signers[i] != nil &&
 //@       (typeof(signers[i]) == signer || (s.noUpstreamSSHCACert ==> !hiddenKey(signerKey(signers[i])))))
